@@ -44,6 +44,21 @@ def gen_tie_cases(ctx, scale):
                         if present:
                             dst.append((b0[idx] // 100) * 100 + 99 - (b0[idx] % 100) % 50)
                         cases.append('xi %s %s %d %s %s' % (c, kind, idx, fmt(dst), fmt(b0)))
+    # multi-element Insert(range) and Remove(pred) of a HashSet: arguments / layouts with present and absent keys, duplicates
+    for i in range(32 * scale):
+        c = CATS[i % 4]
+        kind = ('func', 'copy')[(i // 4) % 2]
+        dst = list({k: k * 100 + r.range(50, 99) for k in (r.range(0, 20) for _ in range(r.range(0, 6)))}.values())
+        args = [r.range(0, 20) * 100 + r.range(1, 49) for _ in range(r.range(0, 8))]
+        cases.append('ir %s %s %s %s' % (c, kind, fmt(dst), fmt(args)))
+    for i in range(32 * scale):
+        c = CATS[i % 4]
+        kind = ('func', 'copy')[(i // 4) % 2]
+        bks = []
+        for b in range(8):
+            n = r.range(0, 3) if r.chance(1, 2) else 0
+            bks.append([(b + 8 * j) * 100 + r.range(1, 49) for j in range(n)])
+        cases.append('rp %s %s %d %s' % (c, kind, r.range(1, 3), ' '.join(fmt(b) for b in bks)))
     # maps: MapKeyValueTraits mechanisms for every (key category, value category) x operation x failure index
     for kc in CATS:
         for vc in CATS:
@@ -205,7 +220,7 @@ def tie_oracle(ctx, case, out):
     """the property itself on the real code's output line (independent of the Coq model)"""
     w = case.split()
     bad = []
-    if 'LEAK' in out or 'UNUSABLE' in out or 'BAD-' in out or 'HARNESS-EXCEPTION' in out or 'TOO-MANY' in out or out.strip() in ('?', ''):
+    if 'LEAK' in out or 'UNUSABLE' in out or 'INVALID-TREE' in out or 'BAD-' in out or 'HARNESS-EXCEPTION' in out or 'TOO-MANY' in out or out.strip() in ('?', ''):
         bad.append('leak / unusable container / harness problem: ' + out[:200])
         return bad
     if w[0] in ('hm', 'tm', 'lm', 'fm', 'xi'):
@@ -247,6 +262,42 @@ def tie_oracle(ctx, case, out):
                     if multi or x // 100 not in set(d // 100 for d in dst):
                         bad.append('completed merge left item %d in the source although the destination accepts it' % x)
         if nb > 1:
+            ctx.nontrivial.add(case)
+    elif w[0] == 'ir':
+        dst0 = parse_items(w[3]); args = parse_items(w[4])
+        bs = behaviours(out)
+        for b in bs:
+            m = re.search(r'dst=(\S+)', b)
+            dst = parse_items(m.group(1)) if m else None
+            if dst is None or 'ARGS-MODIFIED' in b:
+                bad.append('unparsable / arguments modified: ' + b[:120]); continue
+            if ms(dst) - ms(dst0 + args):
+                bad.append('container is not a subset of original + inserted: %s' % dst)
+            if ms(dst0) - ms(dst):
+                bad.append('an original item disappeared: %s' % dst)
+            if len(set(d // 100 for d in dst)) != len(dst):
+                bad.append('duplicate keys after multi-element insert: %s' % dst)
+            if b.startswith('S') and set(a // 100 for a in args) - set(d // 100 for d in dst):
+                bad.append('completed insert misses an argument key')
+        if len(bs) > 1:
+            ctx.nontrivial.add(case)
+    elif w[0] == 'rp':
+        mod = int(w[3]); src0 = [x for b in w[4:] for x in parse_items(b)]
+        bs = behaviours(out)
+        for b in bs:
+            m = re.search(r'src=(\S+)', b)
+            if not m:
+                bad.append('unparsable behaviour ' + b[:120]); continue
+            src = parse_items(m.group(1))
+            if ms(src) - ms(src0):
+                bad.append('container is not a subset of the original after Remove(pred): %s' % src)
+            if any((x // 100) % mod != 0 for x in (ms(src0) - ms(src)).elements()):
+                bad.append('Remove(pred) removed an item the predicate rejects')
+            if b.startswith('S') and any((x // 100) % mod == 0 for x in src):
+                bad.append('completed Remove(pred) left a matching item')
+            if w[1] in MOVABLE and re.search(r'(^|[ ;])C(A)? \d', b.split('src=')[1]):
+                bad.append('Remove(pred) copied a movable element')
+        if len(bs) > 1:
             ctx.nontrivial.add(case)
     elif w[0] == 'px':
         pp = lambda t: [] if t in ('-', 'none') else [tuple(int(x) for x in q.split(':')) for q in t.split(',')]
